@@ -101,6 +101,17 @@ def check_tree(rec, value, kids, w, size, root=None):
             ok, sq = rec.guard("C19.total", w, size, squash_replace, value, root.children)
         if ok and sq != got:
             rec.violation("C19.squash", "squash-differs-without-overlap", w, f"squash_replace = {sq!r} but flatten() = {got!r} although no substituted results overlap", size)
+    # the same child objects placed under ANOTHER parent afterwards (the constructor re-targets their parent pointers): the first tree's
+    # value and child lists are unchanged, so is its flattening
+    if root.children:
+        from multidecoder.node import Node as _Node
+        _Node("alias", b"\x00" * (len(value) + 3), "", 0, 0, children=list(root.children))
+        ok3, got3 = rec.guard("C19.total", w, size, root.flatten)
+        for c in root.children:
+            c.parent = root
+        if ok3 and got3 != exp:
+            rec.violation("C19.flatten.current-tree", "depends-on-parent-pointers", w,
+                          f"after the same child objects were also given to another Node, flatten() = {got3!r} instead of {exp!r}", size)
     # flatten again after the tree changed below the root (a result must describe the tree as it is now)
     for ci, c in enumerate(root.children):
         for gi, g in enumerate(c.children):
